@@ -354,11 +354,13 @@ REG["C02"] = Spec(
     assumptions=COMM_ASSUME,
     explanation="stream bytes are position-tagged; the model write checks each byte handed to the child against the harness's copy of the input (once, in order) and the close of stdin against 'whole input accepted'; at return the vectors must equal exactly the bytes taken out of each pipe during the call, results are present iff piped, success without limits implies end-of-file everywhere",
 )
+LIM_Q1 = comm_h("h_comm_limit_q1", "stdout+stderr, one read with a symbolic limit n >= 1, arbitrary start state", 0, 3, covers=["COVER/cut-short-by-limit"])
+LIM_Q2 = comm_h("h_comm_limit_q2", "stdout+stderr, two successive reads with symbolic limits n1, n2 >= 1 sharing 3 system calls, arbitrary start state", 0, 3)
 REG["C03"] = Spec(
-    quick=[LIM_OE],
-    thorough=[LIM_OE, LIM_IO],
+    quick=[LIM_Q1, LIM_Q2],
+    thorough=[LIM_Q1, LIM_OE, LIM_IO],
     encodes=COMM_ENC,
-    bounds="two successive reads with symbolic limits n1, n2 in 1..=usize::MAX from an arbitrary mid-exchange state; data available on both streams at once; 4 parent system calls in total",
+    bounds={"quick": "one read (3 parent system calls) and two successive reads (3 system calls in total) with symbolic limits in 1..=usize::MAX from an arbitrary mid-exchange state; data available on both streams at once", "thorough": "two successive reads over 4 system calls, also with stdin"},
     outside="more than two reads in sequence (the second read starts from the state the first one leaves, which is inside the arbitrary start state of the harness); Windows leftover hand-over",
     assumptions=COMM_ASSUME,
     explanation="per read: total returned <= n, no read asks the kernel for more than the remaining allowance, pieces are consecutive (content check against pipe offsets), all-empty success only at end-of-file, a read stops short of n only at end-of-file, stdin stays open while input remains",
